@@ -25,32 +25,45 @@ def run(ctx):
     import vlib
     q = ctx.quick
     behs = []
-    mc = ctx.tlc("alerting", "Alerting", "MC_quick.cfg", workers=1, timeout=900)
+    from concurrent.futures import ThreadPoolExecutor
+    d = 16 if q else 22
+    # the three TLC runs are independent: run them side by side (class emission needs workers=1)
+    with ThreadPoolExecutor(max_workers=3) as ex:
+        f_mc = ex.submit(ctx.tlc, "alerting", "Alerting", "MC_quick.cfg", workers=1, timeout=900)
+        f_one = ex.submit(ctx.tlc, "alerting", "Alerting", "MC_one.cfg", workers=1, timeout=900)
+        f_sim = ex.submit(ctx.tlc, "alerting", "Alerting", "SIM.cfg", simulate=(25 if q else 400), depth=d + 3, workers=4,
+                          constants={"MaxOps": d}, timeout=(100 if q else 1200))
+        mc, one, sim = f_mc.result(), f_one.result(), f_sim.result()
     ctx.account(mc)
     behs += mc.emitted
-    ctx.log("MC_quick: %d generated / %d distinct, %d class behaviours" % (mc.generated, mc.distinct, len(mc.emitted)))
-    one = ctx.tlc("alerting", "Alerting", "MC_one.cfg", workers=1, timeout=900)
+    ctx.log("MC_quick: %d generated / %d distinct, %d class behaviours (%.0fs)" % (mc.generated, mc.distinct, len(mc.emitted), mc.wall))
     ctx.account(one)
     behs += one.emitted
-    ctx.log("MC_one: %d generated / %d distinct, %d class behaviours" % (one.generated, one.distinct, len(one.emitted)))
-    if not q:
-        big = ctx.tlc("alerting", "Alerting", "MC_big.cfg", timeout=3000)
-        ctx.account(big)
-        ctx.log("MC_big: %d generated / %d distinct" % (big.generated, big.distinct))
-    d = 16 if q else 22
-    sim = ctx.tlc("alerting", "Alerting", "SIM.cfg", simulate=(25 if q else 400), depth=d + 3, workers=4,
-                  constants={"MaxOps": d}, timeout=(100 if q else 1200))
+    ctx.log("MC_one: %d generated / %d distinct, %d class behaviours (%.0fs)" % (one.generated, one.distinct, len(one.emitted), one.wall))
     ctx.account(sim)
-    ctx.log("SIM: %d walks" % len(sim.emitted))
+    ctx.log("SIM: %d walks (%.0fs)" % (len(sim.emitted), sim.wall))
     behs += sim.emitted
+    if not q:
+        big = ctx.tlc("alerting", "Alerting", "MC_big.cfg", workers=4, timeout=3000)
+        ctx.account(big)
+        ctx.log("MC_big: %d generated / %d distinct (%.0fs)" % (big.generated, big.distinct, big.wall))
     if not behs:
         raise vlib.Infra("no behaviours emitted")
     ctx.samples = [behs[0], behs[len(behs) // 2], behs[-1]]
+    import os
+    if os.environ.get("VERIF_CORRUPT"):
+        # binding self-test: falsify one predicted field of one behaviour; the check must then exit 1
+        import copy
+        b = copy.deepcopy(next(x for x in behs if any(s.get("a") == "Eval" and s.get("act") for s in x)))
+        st = next(s for s in b if s.get("a") == "Eval" and s.get("act"))
+        st["act"][0]["activeAt"] += 1
+        behs = behs + [b]
+        ctx.log("VERIF_CORRUPT: predicted activeAt of one alert falsified in an extra behaviour")
     inp = ctx.write_ndjson("behaviours.ndjson", behs)
     gr = ctx.go_test("rules", ["c44_alerting_test.go"], "^TestVerifC44Replay$", env={"VERIF_IN": inp})
     ctx.absorb(gr, label="C44 replay")
     ctx.assumptions += [
-        "bounded model: 2 label sets x 5 steps and 1 label set x 9 steps exhaustively, for in {0,3}, keep_firing_for in {0,4}, "
+        "bounded model: 2 label sets x 5 steps (for in {0,3}) and 1 label set x 9 steps (for in {2,3}) exhaustively, keep_firing_for in {0,4}, grace 2, tolerance 6, "
         "steps {1,2,5} units, 1 reload, 1 restart; larger alphabet only by seeded simulation",
         "time grid of 300 s units at non-negative unix seconds; resolvedRetention = 3 units",
         "one alerting rule per group, query offset 0, no group limit, reload only after restore",
